@@ -151,7 +151,8 @@ Record prep_ok (ms : list member) (ts : topics_t) (pr : prep) : Prop := {
   po_key : forall m q, pot ms ts m q -> In m (akeys (s_ca (pr_s0 pr))) \/ In m (akeys (pr_fixed pr));
   po_ids : forall m, In m (akeys (s_ca (pr_s0 pr))) \/ In m (akeys (pr_fixed pr)) -> In m (map m_id ms);
   po_run : run_inv ms ts (akeys (s_ca (pr_s0 pr))) (pr_fixed pr) (pr_s0 pr);
-  po_parts : forall q, In q (pr_parts pr) -> part_can_participate (pr_p2c pr) q = true
+  po_parts : forall q, In q (pr_parts pr) -> part_can_participate (pr_p2c pr) q = true;
+  po_parts_all : forall q, In q (all_tps ts) -> part_can_participate (pr_p2c pr) q = true -> In q (pr_parts pr)
 }.
 
 Lemma prepop_members_none : forall ms ids sp, prepop_members ms ids sp = None -> exists mm, In mm ms /\ m_ud mm = UDErr.
@@ -241,6 +242,12 @@ Proof.
     destruct SP as [SP1 SP2]; [now apply NoDup_app_inv in K2 | now rewrite F2|].
     destruct (drop_nonparticipating_spec p2c (akeys p2c) _ SP1) as [_ DS]. apply DS in Hq as [Q1 Q2].
     destruct (part_can_participate p2c q) eqn:Ep; [reflexivity|]. exfalso. apply Q2. split; [now apply SP2 | reflexivity].
+  - intros q Hq Hp.
+    pose proof (sort_partitions_ok o (k_ca k) prev match ca0 with [] => true | _ :: _ => false end p2c c2p NKk) as SP.
+    destruct SP as [SP1 SP2]; [now apply NoDup_app_inv in K2 | now rewrite F2|].
+    destruct (drop_nonparticipating_spec p2c (akeys p2c) _ SP1) as [_ DS]. apply DS. split.
+    + apply sort_partitions_cover. now rewrite F2.
+    + intros [_ H]. congruence.
 Qed.
 
 (* ---- the theorem ---- *)
@@ -257,7 +264,7 @@ Proof.
   2:{ cbn [p_res]. unfold sticky_prepare in Ep. destruct (prepopulate o ms) as [[ca0 prev]|] eqn:Epre.
       - destruct (pot_members ts ms [] (p2c_init (all_tps ts)) ca0) as [[c2p p2c] ca1]. discriminate.
       - unfold prepopulate in Epre. destruct (prepop_members ms _ []) eqn:E1; [discriminate|]. eapply prepop_members_none; eassumption. }
-  destruct (sticky_prepare_ok o ms ts pr Wm Wt Ep) as [C1 C2 NW NF DJ FP KY ID RI PA].
+  destruct (sticky_prepare_ok o ms ts pr Wm Wt Ep) as [C1 C2 NW NF DJ FP KY ID RI PA _].
   set (W := akeys (s_ca (pr_s0 pr))) in *.
   unfold run_perform.
   destruct (perform fuel true (pr_prev pr) (pr_c2p pr) (pr_p2c pr) (pr_parts pr) (pr_s0 pr) false) as [[s' pf] e] eqn:Er.
